@@ -3,7 +3,7 @@
 From Coq Require Import String.
 From Coq Require Import List Strings.Byte NArith ZArith Bool.
 Require Import Bytes Show Tables Codec Norm CleanPath Chain.
-Require Serve Rot Ser ResetLang ResetModel ResetClass Range UriSplit TrailerKeys Rd Chunk HeaderBlock.
+Require Serve Rot Ser ResetLang ResetModel ResetClass Range UriSplit TrailerKeys Rd Chunk HeaderBlock RespFrame.
 Import ListNotations.
 
 Definition arg (args : list bs) (i : nat) : bs := nth i args [].
@@ -60,6 +60,8 @@ Definition entries : list (bs * (list bs -> bs)) := [
   (B "read_hex_int", fun a => Chunk.show_hexres (Chunk.read_hex_int (arg a 0) 0 0));
   (B "write_hex", fun a => Chunk.write_hex (parse_N (arg a 0)));
   (B "enchunk", fun a => Chunk.enchunk a);
+  (B "chunked_writer_body", fun a => RespFrame.chunked_writer_body a);
+  (B "must_skip", fun a => show_bool (RespFrame.must_skip_content_length (parse_Z (arg a 0))));
   (B "ci_compare", fun a => show_bool (TrailerKeys.ci_compare (arg a 0) (arg a 1)));
   (B "normalize_header_key", fun a => TrailerKeys.normalize_header_key (arg a 0))
 ].
